@@ -326,6 +326,56 @@ def run_late_redirect_case(variant):
 
 for v_ in ("redirect-added-after-first-analysis", "premarked-template-nothing-flagged", "premarked-redirect-after-first-analysis"):
     run_late_redirect_case(v_)
+def run_pipeline_case():
+    """analyze_and_overwrite_pages on a database that already holds marked pages, with an override file that adds a
+    flagged template and an includer of it: both end up marked"""
+    global evaluations
+    import json as _json
+    import tempfile as _tf
+    from pathlib import Path as _P
+    from wikitextprocessor.dumpparser import analyze_and_overwrite_pages
+    evaluations += 1
+    with quiet_stdout():
+        ctx = Wtp(quiet=True)
+    tmpd = _tf.mkdtemp(prefix="verif_c17p_")
+    try:
+        def classify(c, page):
+            b = page.body or ""
+            return {nm for nm in ("A", "N", "W") if "{{%s}}" % nm in b}, "==h==" in b
+        ctx.add_page("Template:A", 10, "x ==h==")
+        ctx.add_page("Template:P", 10, "plain")
+        with quiet_stdout():
+            ctx.analyze_templates(classify)
+        f = _P(tmpd) / "o.json"
+        f.write_text(_json.dumps({"Template:N": {"namespace_id": 10, "body": "new ==h==", "need_pre_expand": False, "model": "wikitext"},
+                                  "Template:W": {"namespace_id": 10, "body": "{{N}} w", "need_pre_expand": False, "model": "wikitext"}}),
+                     encoding="utf-8")
+        signal.alarm(20)
+        try:
+            with quiet_stdout():
+                analyze_and_overwrite_pages(ctx, [f], False, classify)
+        except Timeout:
+            fail("core:Wtp.analyze_templates#terminates", "pipeline case did not return", {}, "timeout")
+            finish()
+        finally:
+            signal.alarm(0)
+        got = {p.title for p in ctx.get_all_pages([10]) if p.need_pre_expand}
+        want = {"Template:A", "Template:N", "Template:W"}
+        if got != want:
+            fail("core:Wtp.analyze_templates#marks-exactly-the-least-closed-set[dump-pipeline-with-overrides]",
+                 f"analysed database + override file with a flagged template and its includer: marked {sorted(got)} want {sorted(want)}",
+                 {"history": "analyse; analyze_and_overwrite_pages(overrides containing templates)"}, "missing" if want - got else "extra")
+        distinct.add(("pipeline", 0))
+    finally:
+        import shutil as _sh
+        _sh.rmtree(tmpd, ignore_errors=True)
+        try:
+            ctx.close_db_conn()
+        except Exception:
+            pass
+
+
+run_pipeline_case()
 run_overwrite_case()
 run_override_case(False)
 run_override_case(True)
